@@ -20,6 +20,12 @@ def compare(op, impl, model, rep):
         if model.get("outcome") == "crash":
             return None if impl.get("outcome") in ("crash", "err") else "outcome %r" % (impl,)
         return None if impl == model else "kill -9 + Close() with calls pending: implementation %r, model %r" % (impl, model)
+    if op.get("c") == "calls.handshake":
+        # the model may leave the outcome of Initialize open ("hung|err": a wait whose close case the extractor does not recognise)
+        mi = str(model.get("init", "")).split("|")
+        if impl.get("init") in mi and dict(impl, init=0) == dict(model, init=0):
+            return None
+        return "handshake: implementation %r, model %r" % (impl, model)
     if "calls" not in model:
         return None if impl == model else "outcomes differ: implementation %r, model %r" % (impl, model)
     ic, mc = impl.get("calls", []), model.get("calls", [])
